@@ -60,9 +60,14 @@ def dump(resources, fmt, target, root, **opts):
     import dataflows as DF
     from ..common import tuple_source
     out = os.path.join(root, 'out')
+
+    def wipe(row):
+        # a later step that edits rows in place must not change what the dumper wrote
+        for k in list(row):
+            row[k] = None
     with contextlib.redirect_stdout(io.StringIO()):
         if target == 'path':
-            DF.Flow(tuple_source(resources), DF.dump_to_path(out, format=fmt, **opts)).process()
+            DF.Flow(tuple_source(resources), DF.dump_to_path(out, format=fmt, **opts), wipe).process()
             desc = json.load(open(os.path.join(out, 'datapackage.json')))
 
             def read(p):
@@ -70,7 +75,7 @@ def dump(resources, fmt, target, root, **opts):
             return desc, read, (os.path.join(out, 'datapackage.json'), {})
         os.makedirs(out, exist_ok=True)
         zp = os.path.join(out, 'o.zip')
-        DF.Flow(tuple_source(resources), DF.dump_to_zip(zp, format=fmt, **opts)).process()
+        DF.Flow(tuple_source(resources), DF.dump_to_zip(zp, format=fmt, **opts), wipe).process()
         z = zipfile.ZipFile(zp)
         desc = json.loads(z.read('datapackage.json'))
         return desc, (lambda p: z.read(p)), (zp, dict(format='datapackage'))
